@@ -452,6 +452,18 @@ func (option *Option) isValueValidator() ValueValidator {
 	return nil
 }
 
+// isCollection reports whether the option's value is a slice or a map,
+// possibly behind pointers.
+func (option *Option) isCollection() bool {
+	tp := option.value.Type()
+
+	for tp.Kind() == reflect.Ptr {
+		tp = tp.Elem()
+	}
+
+	return tp.Kind() == reflect.Map || tp.Kind() == reflect.Slice
+}
+
 func (option *Option) isBool() bool {
 	tp := option.value.Type()
 
